@@ -831,8 +831,10 @@ func (e *endpoint) handleSegments() *tcpip.Error {
 		} else if s.flagIsSet(flagAck) {
 			// 处理正常的报文
 			// Patch the window size in the segment according to the
-			// send window scale.
-			s.window <<= e.snd.sndWndScale
+			// send window scale. 带SYN的段(重传的SYN-ACK)的窗口字段不缩放(RFC 7323 2.2)
+			if !s.flagIsSet(flagSyn) {
+				s.window <<= e.snd.sndWndScale
+			}
 
 			// If the timestamp option is negotiated and the segment
 			// does not carry a timestamp option then the segment
